@@ -104,6 +104,17 @@ def norm(lines, start_seq=None, after_mark=None):
     return out
 
 
+def structural_state(text):
+    try:
+        x = json.loads(text)
+    except ValueError:
+        return None
+    if isinstance(x, dict) and isinstance(x.get("microstepper"), dict):
+        # which active states had their invocations started is bookkeeping that depends on whether a macrostep ended since
+        x["microstepper"].pop("invocations", None)
+    return x
+
+
 def snapshots_of(res):
     return [(r[SEQ], r[T], r[5], r[6], r[7]) for r in res.lines if r[KIND] == "snap" and r[SESS] == "i0"]
 
@@ -168,6 +179,46 @@ def pending_delayed_at(res, seq):
     return sorted(pend.values())
 
 
+def check_identity_all(plan, snaps, usim, limit=16):
+    """every distinct snapshot of the run (not only the sampled resume points) is restored into a fresh interpreter and read
+    back at once: deserialize + serialize is the identity on the state"""
+    texts = []
+    for sn in snaps:
+        st = structural_state(sn[4])
+        # a restored interpreter only lets itself be serialised after a step; with an empty external queue and a stable
+        # configuration that step changes nothing (snapshots with queued events are covered by the resume comparison)
+        if sn[4] not in texts and isinstance(st, dict) and not st.get("externalQueue"):
+            texts.append(sn[4])
+    texts = texts[:limit]
+    if not texts:
+        return [], 0
+    create = dict(plan["actors"]["main"][0])
+    ops = []
+    for n, t in enumerate(texts):
+        ops += [dict(create), {"op": "deserialize", "i": 0, "text": t}, {"op": "step", "i": 0, "block": 0},
+                {"op": "serialize", "i": 0, "slot": "rb%d" % n}, {"op": "destroy", "i": 0}]
+    q = dict(plan)
+    q["actors"] = {"main": ops}
+    r = usim.run(q)
+    if r.failed_hard():
+        hf = hard_failures(r, PROP)
+        return ([(hf[0][0], "restoring the run's snapshots one after the other: %s" % hf[0][1][:600])] if hf else []), 0
+    back = {r_[5]: r_[6] for r_ in r.lines if r_[KIND] == "snap"}
+    nhist = 0
+    for n, t in enumerate(texts):
+        sa = structural_state(t)
+        if isinstance(sa, dict) and isinstance(sa.get("microstepper"), dict) and sa["microstepper"].get("histories"):
+            nhist += 1
+        if "rb%d" % n not in back:
+            continue
+        sb = structural_state(back["rb%d" % n])
+        if sa is not None and sb is not None and sa != sb:
+            keys = [k_ for k_ in sorted(set(sa) | set(sb)) if sa.get(k_) != sb.get(k_)] if isinstance(sa, dict) and isinstance(sb, dict) else []
+            return [("C14.snapshot-identity", "deserialize() followed by serialize() does not give snapshot %d of the run back; differing parts %s: before=%s after=%s" % (
+                n, keys, json.dumps({k_: sa.get(k_) for k_ in keys})[:500], json.dumps({k_: sb.get(k_) for k_ in keys})[:500]))], nhist
+    return [], nhist
+
+
 def check_foreign(plan, usim):
     """a snapshot of another document must be rejected"""
     q = dict(plan)
@@ -201,6 +252,8 @@ def evaluate(plan, usim):
         v += check_resume(plan, res, snap, usim)[0]
         if v:
             break
+    if not v and only is None:
+        v += check_identity_all(plan, snapshots_of(res), usim)[0]
     v += check_foreign(plan, usim)
     return v
 
@@ -236,6 +289,12 @@ def run_one(ctx, usim, seed, k, acc):
             p2["only_snapshot"] = n
             acc.violations.append({"rule": rv[0][0], "detail": rv[0][1], "plan": p2, "k": k})
             break
+    if not [x for x in acc.violations if x["k"] == k]:
+        iv, nhist = check_identity_all(plan, snaps, usim)
+        acc.count("probe.snapshots_read_back", min(len(set(sn[4] for sn in snaps)), 16))
+        acc.count("probe.snapshots_with_remembered_history", nhist)
+        for (rule, detail) in iv:
+            acc.violations.append({"rule": rule, "detail": detail, "plan": plan, "k": k})
     fv = check_foreign(plan, usim)
     acc.count("fault.foreign_snapshot")
     for (rule, detail) in fv:
